@@ -48,6 +48,8 @@ pub struct Drain<C: Col> {
     pub calls: Vec<Value>,
     /// at most this many colours of a stream are stored (all are counted)
     pub store_cap: usize,
+    /// the bounding box the target REPORTS (it logs whatever it receives)
+    pub bbox: Rectangle,
     _c: PhantomData<C>,
 }
 pub const HARD_CAP: usize = 1 << 20;
@@ -56,12 +58,12 @@ pub fn call_json(m: &str, area: &Rectangle, n: usize, over: bool, cs: Vec<i32>, 
 }
 impl<C: Col> Drain<C> {
     pub fn new() -> Self {
-        Drain { calls: vec![], store_cap: 1 << 17, _c: PhantomData }
+        Drain { calls: vec![], store_cap: 1 << 17, bbox: Rectangle::new(Point::new(-(1 << 20), -(1 << 20)), Size::new(1 << 21, 1 << 21)), _c: PhantomData }
     }
 }
 impl<C: Col> Dimensions for Drain<C> {
     fn bounding_box(&self) -> Rectangle {
-        Rectangle::new(Point::new(-(1 << 20), -(1 << 20)), Size::new(1 << 21, 1 << 21))
+        self.bbox
     }
 }
 impl<C: Col> DrawTarget for Drain<C> {
